@@ -109,22 +109,31 @@ class Gen(object):
     def rcs_available(self, v):
         return STD_RCS + v.custom_rcs
 
-    def amount_for(self, v, k, consumer):
+    def amount_for(self, v, k, consumer, share=None):
         rng = self.rng
         if k not in v.invs:
             return rng.choice([1, 2])
         i = v.invs[k]
         rem = v.remaining(k, consumer)
+        if share:
+            # a valid amount that leaves room for the other `share - 1` consumers of the same request
+            top = min(rem // share, i['max_unit'])
+            a = (top // i['step_size']) * i['step_size']
+            if a >= i['min_unit'] and a >= 1:
+                return rng.choice([a, i['step_size'] * max(1, -(-i['min_unit'] // i['step_size']))]) \
+                    if i['step_size'] * max(1, -(-i['min_unit'] // i['step_size'])) <= a else a
         cands = [1, 1, 2, i['min_unit'], i['step_size'], i['step_size'] * 2, rem, rem, rem + 1, max(rem - 1, 1),
                  i['max_unit'] if i['max_unit'] < 1000 else 3, (i['max_unit'] + 1) if i['max_unit'] < 1000 else 5]
         a = rng.choice(cands)
         return max(1, min(a, MAX_INT))
 
-    def consumer_req(self, v, mv, c=None, empty_ok=True):
+    def consumer_req(self, v, mv, c=None, empty_ok=True, share=None):
         rng = self.rng
         c = c or rng.choice(CONSUMERS)
         cur = v.consumers.get(c)
         r = rng.random()
+        if share:
+            r = r * 0.8       # requests meant to succeed as a whole carry the right generations
         if cur is None:
             gen = None if r < 0.9 else rng.choice([0, 1])
         else:
@@ -155,7 +164,7 @@ class Gen(object):
                 if k in seen:
                     continue
                 seen.add(k)
-                allocs.append([k[0], k[1], self.amount_for(v, k, c)])
+                allocs.append([k[0], k[1], self.amount_for(v, k, c, share)])
             # group by provider (a JSON object has one entry per provider)
             order = []
             for a in allocs:
@@ -316,7 +325,9 @@ class Gen(object):
         rng = self.rng
         mv = self.mv('alloc_post')
         cs = rng.sample(CONSUMERS, rng.choice([1, 2, 2, 3]))
-        return {'op': 'alloc_post', 'mv': mv, 'cs': [self.consumer_req(v, mv, c) for c in cs]}
+        # half of the multi-consumer requests are built to succeed as a whole (amounts share the remaining room)
+        share = len(cs) if rng.random() < 0.5 else None
+        return {'op': 'alloc_post', 'mv': mv, 'cs': [self.consumer_req(v, mv, c, share=share) for c in cs]}
 
     def g_alloc_delete(self, v):
         rng = self.rng
